@@ -29,6 +29,9 @@ type recEvent struct {
 }
 
 type faultPlan struct {
+	// hooks run when the named op (same key syntax) begins, before it executes: used to interleave
+	// another request (e.g. a sign-out) at an exact point of the faulted request
+	hooks map[string]func()
 	// key: op name + "#" + ordinal (1-based) among ops of that name in this request, or op name + "#*"
 	at map[string]string // value: "before" (error, no effect) | "after" (effect, then error)
 }
@@ -65,6 +68,14 @@ func (r *recorder) begin(op string) (fault string) {
 		r.counts = map[string]int{}
 	}
 	r.counts[op]++
+	if r.plan != nil && r.plan.hooks != nil {
+		if h, ok := r.plan.hooks[fmt.Sprintf("%s#%d", op, r.counts[op])]; ok {
+			delete(r.plan.hooks, fmt.Sprintf("%s#%d", op, r.counts[op]))
+			r.mu.Unlock()
+			h()
+			r.mu.Lock()
+		}
+	}
 	return r.plan.get(op, r.counts[op])
 }
 
@@ -175,7 +186,16 @@ func (s *recStore) Clear(rw http.ResponseWriter, req *http.Request) error {
 func (s *recStore) VerifyConnection(ctx context.Context) error {
 	f := s.rec.begin("ping")
 	var err error
-	if f != "" {
+	if f == "hang" {
+		// a store that accepts the connection but never answers: the call returns only when the
+		// caller's deadline (if any) passes, or after 2.5 s, with an error
+		select {
+		case <-ctx.Done():
+			err = ctx.Err()
+		case <-time.After(2500 * time.Millisecond):
+			err = errInjected
+		}
+	} else if f != "" {
 		err = errInjected
 	} else {
 		err = s.inner.VerifyConnection(ctx)
